@@ -49,3 +49,9 @@ VARIANTS += [
     M('C15', 'empty-actual-treated-as-absent', E(CF, "                if actual is not None and not raw_actual_path:", "                if actual and not raw_actual_path:"), rule='C15-EMPTY', key='actual'),
     M('C15', 'refactor-content-test-reordered', E(CF, "                if actual is not None and not raw_actual_path:", "                if not raw_actual_path and actual is not None:"), kind='refactor'),
 ]
+
+VARIANTS += [
+    M('C15', 'post-processed-files-take-their-final-newline-from-different-guides', E(CF, "            self.write_file(\n                diffActual,\n                (differ or '') + reconstruction.actual_lines(),\n                guide=guide,\n            )", "            self.write_file(\n                diffActual,\n                (differ or '') + reconstruction.actual_lines(),\n                guide=actual_path or expected_path,\n            )"),
+      rule='C15-SAMEGUIDE', key='add_failures'),
+    M('C15', 'refactor-guide-renamed', E(CF, "guide = expected_path or actual_path", "guide = expected_path or actual_path  # same for both files"), kind='refactor'),
+]
